@@ -3,7 +3,7 @@ use proc_macro2::TokenStream;
 use crate::{
     analyze_generics::TraitFn,
     idents::GenericIdents,
-    token_util::{push_tokens, EmptyToken, Punctuator, TokenPair},
+    token_util::{push_tokens, CoreMarker, EmptyToken, Punctuator, TokenPair},
 };
 
 #[derive(Clone)]
@@ -176,7 +176,7 @@ impl quote::ToTokens for ParamsGenerator<'_> {
                     stream,
                     impl_t,
                     syn::token::Colon::default(),
-                    syn::Ident::new("Sync", proc_macro2::Span::call_site())
+                    CoreMarker("Sync", proc_macro2::Span::call_site())
                 );
 
                 if self.takes_self_by_value.0 {
@@ -184,7 +184,7 @@ impl quote::ToTokens for ParamsGenerator<'_> {
                         stream,
                         syn::token::Plus::default(),
                         // In case T is not a reference, it has to be Send
-                        syn::Ident::new("Send", proc_macro2::Span::call_site())
+                        CoreMarker("Send", proc_macro2::Span::call_site())
                     );
                 }
 
